@@ -51,6 +51,9 @@ type c17Fault struct {
 	Call string `json:"call"`
 	N    int    `json:"n"` // 1-based index among the calls of that kind in this Apply
 	Mode string `json:"mode"`
+	// Arg: for the RouteList mode "eintr-del" the key of the route that another actor deletes between
+	// the interrupted dump and its retry
+	Arg string `json:"arg,omitempty"`
 }
 
 type c17Ev struct {
@@ -103,6 +106,10 @@ type c17State struct {
 	faults []c17Fault
 	fired  int
 	rec    *[]string // dry run: sequence of call kinds
+	// dry run: for the i-th RouteList call, the keys of the routes it delivered
+	recRouteKeys [][]string
+	// armed "dump interrupted, table edited, retry" fault for the RouteList call in progress
+	editFault *c17Fault
 
 	connectFails int
 	crashes      int
@@ -164,6 +171,10 @@ func (s *c17State) pre(call string) {
 	}
 	for _, f := range s.faults {
 		if f.Call == call && f.N == s.counts[call] {
+			if strings.HasPrefix(f.Mode, "eintr-") {
+				ff := f
+				s.editFault = &ff
+			}
 			s.dp.FailuresToSimulate |= c17Flags[call+"/"+f.Mode]
 			s.fired++
 			s.lastCalls[len(s.lastCalls)-1] += "[FAULT " + f.Mode + "]"
@@ -210,8 +221,39 @@ func (n *c17NL) LinkByName(name string) (netlink.Link, error) {
 	return n.MockNetlinkDataplane.LinkByName(name)
 }
 func (n *c17NL) RouteListFilteredIter(family int, filter *netlink.Route, mask uint64, f func(netlink.Route) bool) error {
-	n.s.pre("RouteList")
-	return n.MockNetlinkDataplane.RouteListFilteredIter(family, filter, mask, f)
+	s := n.s
+	s.editFault = nil
+	s.pre("RouteList")
+	routes, err := n.MockNetlinkDataplane.RouteListFiltered(family, filter, mask)
+	sort.Slice(routes, func(i, j int) bool { return mocknetlink.KeyForRoute(&routes[i]) < mocknetlink.KeyForRoute(&routes[j]) })
+	var keys []string
+	for _, r := range routes {
+		keys = append(keys, mocknetlink.KeyForRoute(&r))
+	}
+	if s.rec != nil {
+		s.recRouteKeys = append(s.recRouteKeys, keys)
+	}
+	for _, r := range routes {
+		if !f(r) {
+			break
+		}
+	}
+	if ef := s.editFault; ef != nil && err == nil {
+		// The dump was delivered in full but the kernel flags it as interrupted (NLM_F_DUMP_INTR):
+		// the table changed while it was being read. Another actor's change lands now, before the
+		// caller's retry.
+		s.editFault = nil
+		switch ef.Mode {
+		case "eintr-del":
+			delete(s.dp.RouteKeyToRoute, ef.Arg)
+			delete(s.foreign, ef.Arg)
+			delete(s.contested, ef.Arg)
+		case "eintr-add":
+			s.addForeign(netlink.Route{Dst: c17Net("10.9.8.0/24"), LinkIndex: 2, Gw: net.ParseIP("192.168.0.8"), Protocol: 80, Type: unix.RTN_UNICAST})
+		}
+		return unix.EINTR
+	}
+	return err
 }
 func (n *c17NL) RouteReplace(r *netlink.Route) error {
 	n.s.pre("RouteReplace")
@@ -755,17 +797,18 @@ func c17Replay(cfg c17Cfg, hist []c17Ev) *c17State {
 	return s
 }
 
-func c17DryRun(s *c17State, faults []c17Fault) (calls []string) {
+func c17DryRun(s *c17State, faults []c17Fault) (calls []string, routeKeys [][]string) {
 	_ = vk.Catch(func() error {
 		cl := c17Replay(s.cfg, s.hist)
 		cl.rec = &calls
+		defer func() { routeKeys = cl.recRouteKeys }()
 		cl.apply(faults, "dry-run")
 		return nil
 	})
 	return
 }
 
-func c17Points(calls []string, after map[string]int) []c17Fault {
+func c17Points(calls []string, routeKeys [][]string, after map[string]int) []c17Fault {
 	var out []c17Fault
 	cnt := map[string]int{}
 	for _, c := range calls {
@@ -775,6 +818,14 @@ func c17Points(calls []string, after map[string]int) []c17Fault {
 		}
 		for _, m := range c17Modes[c] {
 			out = append(out, c17Fault{Call: c, N: cnt[c], Mode: m})
+		}
+		if c == "RouteList" && cnt[c] <= len(routeKeys) {
+			// the dump is interrupted and, before the retry, another actor removes one of the routes
+			// it has just reported (each of them in turn) or adds one
+			for _, k := range routeKeys[cnt[c]-1] {
+				out = append(out, c17Fault{Call: c, N: cnt[c], Mode: "eintr-del", Arg: k})
+			}
+			out = append(out, c17Fault{Call: c, N: cnt[c], Mode: "eintr-add"})
 		}
 	}
 	return out
@@ -827,11 +878,11 @@ func c17Enabled(s *c17State, depth int) []c17Ev {
 	}
 	add(c17Ev{Op: "apply"})
 	if s.cfg.MaxFaults >= 1 {
-		calls := c17DryRun(s, nil)
-		for _, f1 := range c17Points(calls, nil) {
+		calls, rkeys := c17DryRun(s, nil)
+		for _, f1 := range c17Points(calls, rkeys, nil) {
 			add(c17Ev{Op: "apply", Faults: []c17Fault{f1}})
 			if s.cfg.MaxFaults >= 2 {
-				calls2 := c17DryRun(s, []c17Fault{f1})
+				calls2, rkeys2 := c17DryRun(s, []c17Fault{f1})
 				// second fault strictly later in the call sequence than the first
 				after := map[string]int{}
 				seen := map[string]int{}
@@ -845,7 +896,7 @@ func c17Enabled(s *c17State, depth int) []c17Ev {
 						passed = true
 					}
 				}
-				for _, f2 := range c17Points(calls2, after) {
+				for _, f2 := range c17Points(calls2, rkeys2, after) {
 					add(c17Ev{Op: "apply", Faults: []c17Fault{f1, f2}})
 				}
 			}
